@@ -16,11 +16,13 @@ import time
 
 VERIF = os.path.dirname(os.path.dirname(os.path.abspath(__file__)))
 REPO = os.environ.get("VERIF_REPO", "/repo")
-BUILD = os.path.join(VERIF, "build")
+# (VERIF_REPO / VERIF_BUILD / VERIF_OUT let the same checks be pointed at a scratch worktree -- e.g. one with a seeded
+# change applied -- without touching /repo, the shared build directory or the committed evidence)
+BUILD = os.environ.get("VERIF_BUILD", os.path.join(VERIF, "build"))
 SPEC = os.path.join(VERIF, "spec")
 HARNESS = os.path.join(VERIF, "harness")
-EVIDENCE = os.path.join(VERIF, "evidence")
-REPLAYS = os.path.join(VERIF, "replays")
+EVIDENCE = os.path.join(os.environ.get("VERIF_OUT", VERIF), "evidence")
+REPLAYS = os.path.join(os.environ.get("VERIF_OUT", VERIF), "replays")
 GO = "go1.26"
 NPROC = os.cpu_count() or 4
 
